@@ -1,5 +1,6 @@
 import AsynqModel.Lib.Cache
 import AsynqModel.Proofs.Cache
+import AsynqModel.Proofs.CacheLru
 /-!
 # C13  Async caches behave like their reference cache for every call history
 
@@ -8,9 +9,20 @@ and the key construction of qcore.caching.get_args_tuple over the argument-name 
 
 The reference is `spec`: a cache keyed on the call's normalised arguments (Python's own binding) - or on key_fn's
 result - that returns the stored value without running the body on a hit, runs the body exactly once on a miss,
-never stores a failure, keeps the `maxsize` most recently used entries, one independent cache per live instance,
-and one recomputation after dirty() / ttl expiry.
+never stores a failure, keeps the `maxsize` most recently used entries, one independent cache per live instance
+that is gone when the program drops the instance, and one recomputation after dirty() / ttl expiry.
 
+What is proved, and under which hypotheses (every hypothesis has a machine-checked witness that it is needed,
+section "the hypotheses are needed"):
+* refinement to `spec` for every history: `C13_alru_refines` (default key; calls satisfying `alruCallOK`; maxsize ≥ 1),
+  `C13_alru_refines_keyfn` (any key function, any calls), `C13_per_instance_refines_partial` (calls satisfying
+  `perInstCallOK`; no body returns a value that refers to its instance), `C13_lazy_refines` (clock starts ≥ 1);
+* the property is FALSE of acached_per_instance as it is when a cached value refers to its instance:
+  `C13_per_instance_leak_counterexample`;
+* the eviction policy stated without the recency list the observer shares with the implementation:
+  `C13_alru_kept_below_maxsize_keys`, `C13_alru_evicted_after_maxsize_keys`.
+The section "one step of the model" at the end holds by unfolding `step`; it documents the model, its content is the
+correspondence check, and it is not part of the claimed theorems.
 -/
 namespace AsynqModel.Cache
 
@@ -44,14 +56,17 @@ theorem C13_alru_key_normal (s : Sig) (c : Call) (b : List Nat) (h : alruBind s 
 
 /-! ## alru_cache -/
 
-/-- with the default key: for every signature, every maxsize ≥ 1 and EVERY history of calls that are valid (spelled in
-    any way) or fail in the key construction, the observations of the model are accepted by `Alru.spec` -/
+/-- with the default key: for every signature, every maxsize ≥ 1 (`LRUCache.__init__` rejects anything else) and EVERY
+    history of calls each of which is valid (spelled in any way), or fails in the key construction ("Missing
+    argument"), or carries an unexpected keyword (`alruCallOK`), the observations of the model are accepted by
+    `Alru.spec`.  Calls that pass too many positional arguments or one parameter twice are NOT covered, and cannot
+    be: `C13_alru_callOK_needed` -/
 theorem C13_alru_refines (s : Sig) (cap : Nat) (hcap : 1 ≤ cap) (ops : List Alru.Op)
     (h : ∀ op ∈ ops, alruCallOK s op.c = true) :
     Alru.spec (alruRefKey .default s) (alruBind s) cap ops
       (Alru.run (alruKey .default s) (alruBind s) (Alru.init cap) ops) = true := by
-  obtain ⟨w', hw⟩ := Alru.watchRun_ok (alruKey .default s) (alruRefKey .default s) (alruBind s) cap hcap ops _ _
-    (Alru.rel_init cap) (fun op ho => alruKey_agrees s op.c (h op ho))
+  obtain ⟨w', hw⟩ := Alru.watchRun_ok' (alruKey .default s) (alruRefKey .default s) (alruBind s) cap hcap ops _ _
+    (Alru.rel_init cap) (Alru.good_init cap) (fun op ho => alru_agree s op.c (h op ho))
   simp [Alru.spec, hw]
 
 /-- with a custom key_fn: for every key function, signature, maxsize ≥ 1 and EVERY history (any spelling, malformed
@@ -61,6 +76,21 @@ theorem C13_alru_refines_keyfn (kf : Call → Option Key) (bd : Call → Option 
     Alru.spec kf bd cap ops (Alru.run kf bd (Alru.init cap) ops) = true := by
   obtain ⟨w', hw⟩ := Alru.watchRun_ok kf kf bd cap hcap ops _ _ (Alru.rel_init cap) (fun _ _ => rfl)
   simp [Alru.spec, hw]
+
+/-- non-vacuity of `C13_alru_refines_keyfn`: `key_fn = lambda args, kwargs: ((sum(args) + sum(kwargs.values())) % 2,)`
+    on `def f(a, b=0)`, maxsize 1: `f(1)` miss, `f(3)` hit (same parity: f(1)'s value - that is what key_fn asks for),
+    `f(2)` miss and evicts, `f(b=1, a=0)` miss, `f()` cannot be bound: TypeError from the body's binding -/
+example : (Alru.run (alruKey .sumParity ⟨[1, 2], [0], [], []⟩) (alruBind ⟨[1, 2], [0], [], []⟩) (Alru.init 1)
+    [⟨⟨[1], []⟩, false⟩, ⟨⟨[3], []⟩, false⟩, ⟨⟨[2], []⟩, false⟩, ⟨⟨[], [(2, 1), (1, 0)]⟩, false⟩, ⟨⟨[], []⟩, false⟩]).map
+      (·.res) = [.ok ⟨1, [1, 0]⟩, .ok ⟨1, [1, 0]⟩, .ok ⟨2, [2, 0]⟩, .ok ⟨3, [0, 1]⟩, .raisedType] := by decide
+example : Alru.spec (alruRefKey .sumParity ⟨[1, 2], [0], [], []⟩) (alruBind ⟨[1, 2], [0], [], []⟩) 1
+    [⟨⟨[1], []⟩, false⟩, ⟨⟨[3], []⟩, false⟩, ⟨⟨[2], []⟩, false⟩, ⟨⟨[], [(2, 1), (1, 0)]⟩, false⟩, ⟨⟨[], []⟩, false⟩]
+    (Alru.run (alruKey .sumParity ⟨[1, 2], [0], [], []⟩) (alruBind ⟨[1, 2], [0], [], []⟩) (Alru.init 1)
+      [⟨⟨[1], []⟩, false⟩, ⟨⟨[3], []⟩, false⟩, ⟨⟨[2], []⟩, false⟩, ⟨⟨[], [(2, 1), (1, 0)]⟩, false⟩, ⟨⟨[], []⟩, false⟩]) = true := by
+  decide
+/-- ... and the observer keyed on key_fn's result rejects a cache that ignores key_fn (`f(3)` recomputed) -/
+example : Alru.specClause (alruRefKey .sumParity ⟨[1, 2], [0], [], []⟩) (alruBind ⟨[1, 2], [0], [], []⟩) 1
+    [⟨⟨[1], []⟩, false⟩, ⟨⟨[3], []⟩, false⟩] [⟨.ok ⟨1, [1, 0]⟩, 1, 0⟩, ⟨.ok ⟨2, [3, 0]⟩, 2, 0⟩] = some .hitRanBody := by decide
 
 /-- the former defect (`argspec.args[1:]`): `f(1, b=5)` and `f(1, b=6)` on `def f(a, b=0)` now get different keys -/
 example : alruKey .default ⟨[1, 2], [0], [], []⟩ ⟨[1], [(2, 5)]⟩ ≠ alruKey .default ⟨[1, 2], [0], [], []⟩ ⟨[1], [(2, 6)]⟩ := by
@@ -74,99 +104,145 @@ theorem C13_alru_size_le_maxsize (mk : Call → Option Key) (bd : Call → Optio
   obtain ⟨w', h⟩ := Alru.inv_final mk bd cap hcap ops _ _ (Alru.rel_init cap)
   exact ⟨h.len, h.nodup⟩
 
-/-- a hit returns the stored value, does not run the body and makes the entry the most recently used -/
-theorem C13_alru_hit (mk : Call → Option Key) (bd : Call → Option (List Nat)) (st : Alru.St) (op : Alru.Op)
-    (k : Key) (v : Val) (hk : mk op.c = some k) (hl : st.cache.items.lookup k = some v) :
-    (Alru.step mk bd st op).2 = .ok v ∧ (Alru.step mk bd st op).1.runs = st.runs ∧
-      (Alru.step mk bd st op).1.cache.items = del k st.cache.items ++ [(k, v)] := by
-  rw [Alru.step_hit hk hl]; exact ⟨rfl, rfl, rfl⟩
+/-- least-recently-USED, stated without the recency list: after ANY history, a call on key `k` that returned `v` (hit
+    or fresh) keeps `k ↦ v` cached through ANY number of later calls, as long as these involve fewer than `maxsize`
+    distinct other keys (`D` lists them; repetitions, failing calls and calls on `k` itself are free) -/
+theorem C13_alru_kept_below_maxsize_keys (mk : Call → Option Key) (bd : Call → Option (List Nat)) (cap : Nat)
+    (hist : List Alru.Op) (op : Alru.Op) (k : Key) (v : Val) (later : List Alru.Op) (D : List Key)
+    (hk : mk op.c = some k)
+    (hres : (Alru.step mk bd (Alru.finalState mk bd (Alru.init cap) hist) op).2 = .ok v)
+    (hD : ∀ o ∈ later, ∀ k2, mk o.c = some k2 → k2 ≠ k → k2 ∈ D)
+    (hl : D.length + 1 ≤ cap) :
+    (Alru.finalState mk bd (Alru.init cap) (hist ++ op :: later)).cache.items.lookup k = some v := by
+  have hcap : 1 ≤ cap := by omega
+  obtain ⟨w, hrel⟩ := Alru.inv_final mk bd cap hcap hist _ _ (Alru.rel_init cap)
+  obtain ⟨w', _, hrel'⟩ := Alru.rel_step mk mk bd cap hcap w _ op hrel rfl
+  obtain ⟨pre, post, hi, hp⟩ := Alru.within_after_ok mk bd _ op k v hk hres
+  have hkept : Alru.Kept k v D (Alru.step mk bd (Alru.finalState mk bd (Alru.init cap) hist) op).1.cache.items := by
+    refine ⟨pre, post, hi, ?_⟩
+    intro p hpm
+    have : post = [] := List.eq_nil_of_length_eq_zero (by omega)
+    rw [this] at hpm; simp at hpm
+  rw [Alru.finalState_append]
+  simp only [Alru.finalState]
+  exact Alru.kept_run mk bd cap hcap k v D later w' _ hrel' hD hl (by simpa [Alru.observe] using hkept)
 
-/-- a miss runs the body exactly once, returns its fresh result, stores it as the most recently used entry and, iff
-    the cache is full, evicts exactly the least recently used entry (the head of the recency list) -/
-theorem C13_alru_miss (mk : Call → Option Key) (bd : Call → Option (List Nat)) (st : Alru.St) (op : Alru.Op)
-    (k : Key) (b : List Nat) (hk : mk op.c = some k) (hl : st.cache.items.lookup k = none) (hb : bd op.c = some b)
-    (hr : op.raises = false) :
-    (Alru.step mk bd st op).2 = .ok ⟨st.runs + 1, b⟩ ∧ (Alru.step mk bd st op).1.runs = st.runs + 1 ∧
-      (Alru.step mk bd st op).1.cache.items =
-        (if st.cache.items.length = st.cache.cap then st.cache.items.drop 1 else st.cache.items) ++
-          [(k, ⟨st.runs + 1, b⟩)] := by
-  rw [Alru.step_store hk hl hb hr]
-  refine ⟨rfl, rfl, ?_⟩
-  simp only [LRU.setItem, hl, Option.isSome_none, Bool.false_eq_true, if_false]
-  by_cases hfull : st.cache.items.length = st.cache.cap
-  · simp [hfull]
-  · have hb' : (st.cache.items.length == st.cache.cap) = false := by simpa using hfull
-    simp [hb', hfull]
-
-/-- a body that raises is not cached: the exception reaches the caller and the cache is unchanged -/
-theorem C13_alru_raise_not_stored (mk : Call → Option Key) (bd : Call → Option (List Nat)) (st : Alru.St) (op : Alru.Op)
-    (k : Key) (b : List Nat) (hk : mk op.c = some k) (hl : st.cache.items.lookup k = none) (hb : bd op.c = some b)
-    (hr : op.raises = true) :
-    (Alru.step mk bd st op).2 = .raisedUser (st.runs + 1) ∧ (Alru.step mk bd st op).1.cache = st.cache := by
-  rw [Alru.step_raise hk hl hb hr]; exact ⟨rfl, rfl⟩
-
-/-- least-recently-USED, not first-in: after ANY history, a call on key `k` that returned `v` (hit or fresh) keeps
-    `k ↦ v` cached through the next `maxsize - 1` calls, whatever they are -/
-theorem C13_alru_recently_used_kept (mk : Call → Option Key) (bd : Call → Option (List Nat)) (cap : Nat) (hcap : 1 ≤ cap)
+/-- the call-counting corollary: the entry survives the next `maxsize - 1` calls, whatever they are -/
+theorem C13_alru_recently_used_kept (mk : Call → Option Key) (bd : Call → Option (List Nat)) (cap : Nat)
     (hist : List Alru.Op) (op : Alru.Op) (k : Key) (v : Val) (later : List Alru.Op)
     (hk : mk op.c = some k)
     (hres : (Alru.step mk bd (Alru.finalState mk bd (Alru.init cap) hist) op).2 = .ok v)
     (hl : later.length + 1 ≤ cap) :
     (Alru.finalState mk bd (Alru.init cap) (hist ++ op :: later)).cache.items.lookup k = some v := by
+  refine C13_alru_kept_below_maxsize_keys mk bd cap hist op k v later (later.filterMap fun o => mk o.c) hk hres ?_ ?_
+  · intro o ho k2 hk2 _
+    exact List.mem_filterMap.mpr ⟨o, ho, hk2⟩
+  · have := List.length_filterMap_le (fun o : Alru.Op => mk o.c) later
+    omega
+
+/-- ... and evicts the least recently used: after ANY history, once the later calls have RETURNED A VALUE (hit or
+    fresh) on `maxsize` distinct keys (`D`) and none of them was a call on `k`, `k` is no longer cached - whatever
+    else happened in between (failing calls, repetitions) -/
+theorem C13_alru_evicted_after_maxsize_keys (mk : Call → Option Key) (bd : Call → Option (List Nat)) (cap : Nat)
+    (hcap : 1 ≤ cap) (hist later : List Alru.Op) (k : Key) (D : List Key)
+    (hnk : ∀ o ∈ later, mk o.c ≠ some k)
+    (hD : D.Nodup)
+    (hsub : ∀ d ∈ D, d ∈ Alru.usedKeys mk bd (Alru.finalState mk bd (Alru.init cap) hist) later)
+    (hlen : cap ≤ D.length) :
+    (Alru.finalState mk bd (Alru.init cap) (hist ++ later)).cache.items.lookup k = none := by
   obtain ⟨w, hrel⟩ := Alru.inv_final mk bd cap hcap hist _ _ (Alru.rel_init cap)
-  obtain ⟨w', _, hrel'⟩ := Alru.rel_step mk mk bd cap hcap w _ op hrel rfl
-  have hw := Alru.within_after_ok mk bd _ op k v hk hres
+  obtain ⟨w2, hrel2⟩ := Alru.inv_final mk bd cap hcap later _ _ hrel
+  have hg := Alru.gone_run mk bd cap hcap k later w _ [] hrel hnk (Alru.gone_start k _)
   rw [Alru.finalState_append]
-  simp only [Alru.finalState]
-  exact Alru.within_run mk bd cap k v later w' _ 0 hrel' hcap (by simpa [Alru.observe] using hw) (by omega)
+  rcases hg with hg | ⟨pre, v, post, hi, hU⟩
+  · exact hg
+  · exfalso
+    have hcard := nodup_subset_length D (post.map (·.1)) hD (fun d hd => hU d (by simpa using hsub d hd))
+    have hl := hrel2.len
+    rw [hi] at hl
+    simp at hl hcard
+    omega
+
+/-- non-vacuity: maxsize 2, `f(1) f(2) f(2) f(2) f(2) f(1)`: four later calls but one other key - `f(1)` is still a hit;
+    `f(1) f(2) f(3)`: two other keys - `f(1)` is gone -/
+example : (Alru.run (alruKey .default ⟨[1], [], [], []⟩) (alruBind ⟨[1], [], [], []⟩) (Alru.init 2)
+    [⟨⟨[1], []⟩, false⟩, ⟨⟨[2], []⟩, false⟩, ⟨⟨[2], []⟩, false⟩, ⟨⟨[2], []⟩, true⟩, ⟨⟨[2], []⟩, false⟩,
+     ⟨⟨[1], []⟩, false⟩]).map (·.runs) = [1, 2, 2, 2, 2, 2] := by decide
+example : Alru.usedKeys (alruKey .default ⟨[1], [], [], []⟩) (alruBind ⟨[1], [], [], []⟩)
+    (Alru.finalState (alruKey .default ⟨[1], [], [], []⟩) (alruBind ⟨[1], [], [], []⟩) (Alru.init 2) [⟨⟨[1], []⟩, false⟩])
+    [⟨⟨[2], []⟩, false⟩, ⟨⟨[4], []⟩, true⟩, ⟨⟨[3], []⟩, false⟩] = [[.val 2], [.val 3]] := by decide
+example : (Alru.finalState (alruKey .default ⟨[1], [], [], []⟩) (alruBind ⟨[1], [], [], []⟩) (Alru.init 2)
+    ([⟨⟨[1], []⟩, false⟩] ++ [⟨⟨[2], []⟩, false⟩, ⟨⟨[4], []⟩, true⟩, ⟨⟨[3], []⟩, false⟩])).cache.items.lookup [.val 1] = none := by
+  decide
 
 /-! ## acached_per_instance -/
 
 /-- for every method signature and EVERY history of calls on any number of instances and instance drops, in which
     each call is valid (spelled in any way), or fails in the key construction ("Missing argument"), or carries an
-    unexpected keyword, the model is accepted by the observer `PerInst.spec`: one reference cache `Key → Option Val`
-    per live instance, keyed on the normalised arguments; a call Python cannot bind raises TypeError and runs nothing -/
-theorem C13_per_instance_refines (s : Sig) (ops : List PerInst.Op)
-    (h : ∀ i c r, PerInst.Op.call i c r ∈ ops → perInstCallOK s c = true) :
+    unexpected keyword, AND in which no body returns a value that refers to its instance (`noSelfRef`), the model is
+    accepted by the observer `PerInst.spec`: one reference cache `Key → Option Val` per live instance, keyed on the
+    normalised arguments, gone when the program drops the instance; a call Python cannot bind raises TypeError and runs
+    nothing.  `_partial`: without `noSelfRef` the property is false - `C13_per_instance_leak_counterexample` -/
+theorem C13_per_instance_refines_partial (s : Sig) (ops : List PerInst.Op)
+    (h : ∀ i c r sr, PerInst.Op.call i c r sr ∈ ops → perInstCallOK s c = true)
+    (hsr : PerInst.noSelfRef ops = true) :
     PerInst.spec (perInstRefKey s) (perInstBind s) ops
       (PerInst.run (perInstKey s) (perInstBind s) PerInst.init ops) = true := by
   obtain ⟨w', hw⟩ := PerInst.watchRun_ok' (perInstKey s) (perInstRefKey s) (perInstBind s) ops _ _ PerInst.rel_init
-    PerInst.good_init (fun i c r ho => perInst_agree s c (h i c r ho))
+    PerInst.good_init (fun i c r sr ho => ⟨perInst_agree s c (h i c r sr ho), by
+      have := List.all_eq_true.mp hsr _ ho
+      simpa using this⟩)
   simp [PerInst.spec, hw]
 
-/-- per-instance caches are independent: nothing done to instance `i` changes the cache of another instance -/
+/-- "per-instance caches ... vanish with their instance" is FALSE of acached_per_instance as it is: on
+    `def m(self, a)`, `obj.m(1)` whose body returns a value that refers to `obj`, then `del obj; gc.collect()`:
+    the closure dict `cache` holds the value, the value holds the instance, the weakref callback never fires and
+    `len(__acached_per_instance_cache__)` stays 1 for the life of the class (clause `instances`) -/
+theorem C13_per_instance_leak_counterexample :
+    PerInst.specClause (perInstRefKey ⟨[9, 1], [], [], []⟩) (perInstBind ⟨[9, 1], [], [], []⟩)
+      [.call 0 ⟨[1], []⟩ false true, .drop 0]
+      (PerInst.run (perInstKey ⟨[9, 1], [], [], []⟩) (perInstBind ⟨[9, 1], [], [], []⟩) PerInst.init
+        [.call 0 ⟨[1], []⟩ false true, .drop 0]) = some .instances := by decide
+
+/-- the same history with a value that does not refer to the instance is accepted, and so is the self-referring
+    one as long as the instance is not dropped: the leak is the only thing `noSelfRef` excludes -/
+example : PerInst.specClause (perInstRefKey ⟨[9, 1], [], [], []⟩) (perInstBind ⟨[9, 1], [], [], []⟩)
+    [.call 0 ⟨[1], []⟩ false false, .drop 0]
+    (PerInst.run (perInstKey ⟨[9, 1], [], [], []⟩) (perInstBind ⟨[9, 1], [], [], []⟩) PerInst.init
+      [.call 0 ⟨[1], []⟩ false false, .drop 0]) = none := by decide
+example : PerInst.specClause (perInstRefKey ⟨[9, 1], [], [], []⟩) (perInstBind ⟨[9, 1], [], [], []⟩)
+    [.call 0 ⟨[1], []⟩ false true, .call 0 ⟨[1], []⟩ false true, .call 1 ⟨[1], []⟩ true true, .drop 1]
+    (PerInst.run (perInstKey ⟨[9, 1], [], [], []⟩) (perInstBind ⟨[9, 1], [], [], []⟩) PerInst.init
+      [.call 0 ⟨[1], []⟩ false true, .call 0 ⟨[1], []⟩ false true, .call 1 ⟨[1], []⟩ true true, .drop 1]) = none := by decide
+
+/-- per-instance caches are independent: nothing done to instance `i` (a call, however it ends; giving it up) changes
+    the cache of another instance, in any state -/
 theorem C13_instances_independent (mk : Call → Option Key) (bd : Call → Option (List Nat)) (st : PerInst.St)
-    (i j : Nat) (hij : j ≠ i) (c : Call) (r : Bool) :
-    PerInst.cacheOf (PerInst.step mk bd st (.call i c r)).1 j = PerInst.cacheOf st j ∧
+    (i j : Nat) (hij : j ≠ i) (c : Call) (r sr : Bool) :
+    PerInst.cacheOf (PerInst.step mk bd st (.call i c r sr)).1 j = PerInst.cacheOf st j ∧
       PerInst.cacheOf (PerInst.step mk bd st (.drop i)).1 j = PerInst.cacheOf st j := by
   constructor
-  · have he : ∀ n, PerInst.cacheOf { insts := PerInst.ensure st.insts i, runs := n } j = PerInst.cacheOf st j := by
-      intro n; simp only [PerInst.cacheOf, PerInst.ensure_getD]
+  · have he : ∀ st' : PerInst.St, st'.insts = PerInst.ensure st.insts i → PerInst.cacheOf st' j = PerInst.cacheOf st j := by
+      intro st' hs; simp only [PerInst.cacheOf, hs, PerInst.ensure_getD]
     rw [PerInst.step_call_eq]
     simp only []
     cases mk c with
-    | none => exact he _
+    | none => exact he _ rfl
     | some k =>
       simp only []
       cases (PerInst.cacheOf st i).lookup k with
-      | some v => exact he _
+      | some v => exact he _ rfl
       | none =>
         simp only []
         cases bd c with
-        | none => exact he _
+        | none => exact he _ rfl
         | some b =>
           cases r with
-          | true => exact he _
+          | true => exact he _ rfl
           | false =>
             simp only [PerInst.cacheOf, PerInst.lookup_store, hij, if_false, Bool.false_eq_true, PerInst.ensure_getD]
-  · simp only [PerInst.step, PerInst.cacheOf, PerInst.lookup_filter_ne, hij, if_false]
-
-/-- ... and vanish with their instance: after the drop the instance has no entry (a later call on a new instance
-    that reuses the token starts from an empty cache) and exactly that entry is gone -/
-theorem C13_instance_drop (mk : Call → Option Key) (bd : Call → Option (List Nat)) (st : PerInst.St) (i : Nat) :
-    (PerInst.step mk bd st (.drop i)).1.insts.lookup i = none ∧
-      (PerInst.step mk bd st (.drop i)).1.insts.map (·.1) = (st.insts.map (·.1)).filter (· != i) := by
-  simp only [PerInst.step, PerInst.lookup_filter_ne, if_true, PerInst.map_fst_filter, and_self]
+  · simp only [PerInst.step]
+    split <;> simp only [PerInst.cacheOf, PerInst.lookup_filter_ne, hij, if_false]
 
 /-! ## alazy_constant -/
 
@@ -235,11 +311,11 @@ example : (([⟨[1], [(4, 2)]⟩, ⟨[], [(4, 2), (1, 1)]⟩, ⟨[1, 0], [(4, 2)
 
 /-- a per-instance history with a hit through another spelling, a raising body, a second instance and a drop -/
 example : PerInst.spec (perInstRefKey ⟨[9, 1, 2], [0], [], []⟩) (perInstBind ⟨[9, 1, 2], [0], [], []⟩)
-    [.call 0 ⟨[1], []⟩ false, .call 0 ⟨[], [(2, 0), (1, 1)]⟩ false, .call 1 ⟨[1], []⟩ true, .call 1 ⟨[1], []⟩ false,
-     .drop 0, .call 0 ⟨[1, 0], []⟩ false]
+    [.call 0 ⟨[1], []⟩ false false, .call 0 ⟨[], [(2, 0), (1, 1)]⟩ false false, .call 1 ⟨[1], []⟩ true false,
+     .call 1 ⟨[1], []⟩ false false, .drop 0, .call 0 ⟨[1, 0], []⟩ false false]
     (PerInst.run (perInstKey ⟨[9, 1, 2], [0], [], []⟩) (perInstBind ⟨[9, 1, 2], [0], [], []⟩) PerInst.init
-      [.call 0 ⟨[1], []⟩ false, .call 0 ⟨[], [(2, 0), (1, 1)]⟩ false, .call 1 ⟨[1], []⟩ true, .call 1 ⟨[1], []⟩ false,
-       .drop 0, .call 0 ⟨[1, 0], []⟩ false]) = true := by decide
+      [.call 0 ⟨[1], []⟩ false false, .call 0 ⟨[], [(2, 0), (1, 1)]⟩ false false, .call 1 ⟨[1], []⟩ true false,
+       .call 1 ⟨[1], []⟩ false false, .drop 0, .call 0 ⟨[1, 0], []⟩ false false]) = true := by decide
 
 /-- an LRU history `a b a c a b` with maxsize 2: the last `a` is a hit, the last `b` a miss -/
 example : (Alru.run (alruKey .default ⟨[1], [], [], []⟩) (alruBind ⟨[1], [], [], []⟩) (Alru.init 2)
@@ -261,5 +337,154 @@ example : (Lazy.run 5 (Lazy.init 1) [.call true 0, .call false 2, .tick 5, .call
 
 /-- ... and it rejects a constant that caches a failed computation (returns None without running the body) -/
 example : Lazy.spec 0 1 [.call true 0, .call false 0] [⟨.raisedUser 1, 1, 1⟩, ⟨.okNone, 1, 1⟩] = false := by decide
+
+
+/-! ## the hypotheses are needed (machine-checked witnesses on the model; the first two are reproduced on the real code) -/
+
+/-- `alruCallOK` cannot be dropped from `C13_alru_refines`: on `def f(a, b=0)`, `f(1)` then `f(1, a=1)` ("multiple values
+    for argument 'a'") - `get_args_tuple` gives both the key `(1, 0)`, so the second call is answered from the cache
+    instead of raising TypeError (it does raise when `f(1)` is not cached).  Same for too many positional arguments:
+    `def g(a, *, k=3)`, `g(1)` then `g(1, 3)` -/
+theorem C13_alru_callOK_needed :
+    Alru.specClause (alruRefKey .default ⟨[1, 2], [0], [], []⟩) (alruBind ⟨[1, 2], [0], [], []⟩) 2
+        [⟨⟨[1], []⟩, false⟩, ⟨⟨[1], [(1, 1)]⟩, false⟩]
+        (Alru.run (alruKey .default ⟨[1, 2], [0], [], []⟩) (alruBind ⟨[1, 2], [0], [], []⟩) (Alru.init 2)
+          [⟨⟨[1], []⟩, false⟩, ⟨⟨[1], [(1, 1)]⟩, false⟩]) = some .malformedCall ∧
+      Alru.specClause (alruRefKey .default ⟨[1], [], [4], [(4, 3)]⟩) (alruBind ⟨[1], [], [4], [(4, 3)]⟩) 2
+        [⟨⟨[1], []⟩, false⟩, ⟨⟨[1, 3], []⟩, false⟩]
+        (Alru.run (alruKey .default ⟨[1], [], [4], [(4, 3)]⟩) (alruBind ⟨[1], [], [4], [(4, 3)]⟩) (Alru.init 2)
+          [⟨⟨[1], []⟩, false⟩, ⟨⟨[1, 3], []⟩, false⟩]) = some .malformedCall ∧
+      alruCallOK ⟨[1, 2], [0], [], []⟩ ⟨[1], [(1, 1)]⟩ = false ∧ alruCallOK ⟨[1], [], [4], [(4, 3)]⟩ ⟨[1, 3], []⟩ = false := by
+  decide
+
+/-- the same for acached_per_instance: `def m(self, a, b=0)`, `obj.m(1)` then `obj.m(1, a=1)` -/
+theorem C13_per_instance_callOK_needed :
+    PerInst.specClause (perInstRefKey ⟨[9, 1, 2], [0], [], []⟩) (perInstBind ⟨[9, 1, 2], [0], [], []⟩)
+        [.call 0 ⟨[1], []⟩ false false, .call 0 ⟨[1], [(1, 1)]⟩ false false]
+        (PerInst.run (perInstKey ⟨[9, 1, 2], [0], [], []⟩) (perInstBind ⟨[9, 1, 2], [0], [], []⟩) PerInst.init
+          [.call 0 ⟨[1], []⟩ false false, .call 0 ⟨[1], [(1, 1)]⟩ false false]) = some .malformedCall ∧
+      perInstCallOK ⟨[9, 1, 2], [0], [], []⟩ ⟨[1], [(1, 1)]⟩ = false := by
+  decide
+
+/-- the unexpected-keyword calls that `alruCallOK` now includes are really covered: `f(1)`, `f(1, q=1)` twice, `f(1)` -/
+example : (Alru.run (alruKey .default ⟨[1, 2], [0], [], []⟩) (alruBind ⟨[1, 2], [0], [], []⟩) (Alru.init 2)
+    [⟨⟨[1], []⟩, false⟩, ⟨⟨[1], [(6, 1)]⟩, false⟩, ⟨⟨[1], [(6, 1)]⟩, false⟩, ⟨⟨[1], []⟩, false⟩]).map (·.res) =
+      [.ok ⟨1, [1, 0]⟩, .raisedType, .raisedType, .ok ⟨1, [1, 0]⟩] ∧
+    alruCallOK ⟨[1, 2], [0], [], []⟩ ⟨[1], [(6, 1)]⟩ = true := by decide
+
+/-- `1 ≤ maxsize` cannot be dropped from `C13_alru_size_le_maxsize` / `C13_alru_refines*`: the model of `__setitem__`
+    with capacity 0 stores the entry (length 1 > 0) and the observer rejects the following hit.  (In the real code
+    `LRUCache(0)` raises ValueError when the decorator is applied: the hypothesis is the constructor's own check.) -/
+theorem C13_alru_maxsize_pos_needed :
+    (Alru.finalState (alruKey .default ⟨[1], [], [], []⟩) (alruBind ⟨[1], [], [], []⟩) (Alru.init 0)
+        [⟨⟨[1], []⟩, false⟩]).cache.items.length = 1 ∧
+      Alru.specClause (alruRefKey .default ⟨[1], [], [], []⟩) (alruBind ⟨[1], [], [], []⟩) 0
+        [⟨⟨[1], []⟩, false⟩, ⟨⟨[1], []⟩, false⟩]
+        (Alru.run (alruKey .default ⟨[1], [], [], []⟩) (alruBind ⟨[1], [], [], []⟩) (Alru.init 0)
+          [⟨⟨[1], []⟩, false⟩, ⟨⟨[1], []⟩, false⟩]) = some .staleValue := by
+  decide
+
+/-- `1 ≤ t0` cannot be dropped from `C13_lazy_refines`: a constant computed while `utime()` returns 0 gets refresh time
+    0, alazy_constant's "never computed" mark, and is computed again by the next call -/
+theorem C13_lazy_clock_pos_needed :
+    Lazy.specClause 0 0 [.call false 0, .call false 0] (Lazy.run 0 (Lazy.init 0) [.call false 0, .call false 0]) =
+      some .hitRanBody := by
+  decide
+
+/-! ## wrong observations the observers reject (each names the violated clause) -/
+
+section rejected
+private abbrev sgA : Sig := ⟨[1, 2], [0], [], []⟩   -- def f(a, b=0)
+private abbrev sgM : Sig := ⟨[9, 1, 2], [0], [], []⟩   -- def m(self, a, b=0)
+
+/-- the value evicted from a cache of size 1 comes back without a body run -/
+example : Alru.specClause (alruRefKey .default sgA) (alruBind sgA) 1
+    [⟨⟨[1], []⟩, false⟩, ⟨⟨[2], []⟩, false⟩, ⟨⟨[1], []⟩, false⟩]
+    [⟨.ok ⟨1, [1, 0]⟩, 1, 0⟩, ⟨.ok ⟨2, [2, 0]⟩, 2, 0⟩, ⟨.ok ⟨1, [1, 0]⟩, 2, 0⟩] = some .staleValue := by decide
+/-- `f(1, b=5)` receives `f(1)`'s value (the repaired `args[1:]` defect) -/
+example : Alru.specClause (alruRefKey .default sgA) (alruBind sgA) 2 [⟨⟨[1], []⟩, false⟩, ⟨⟨[1], [(2, 5)]⟩, false⟩]
+    [⟨.ok ⟨1, [1, 0]⟩, 1, 0⟩, ⟨.ok ⟨1, [1, 0]⟩, 1, 0⟩] = some .foreignValue := by decide
+/-- a cache that never caches; one that caches a failure; one that runs the body twice for one call -/
+example : Alru.specClause (alruRefKey .default sgA) (alruBind sgA) 2 [⟨⟨[1], []⟩, false⟩, ⟨⟨[1], []⟩, false⟩]
+    [⟨.ok ⟨1, [1, 0]⟩, 1, 0⟩, ⟨.ok ⟨2, [1, 0]⟩, 2, 0⟩] = some .hitRanBody := by decide
+example : Alru.specClause (alruRefKey .default sgA) (alruBind sgA) 2 [⟨⟨[1], []⟩, true⟩, ⟨⟨[1], []⟩, false⟩]
+    [⟨.raisedUser 1, 1, 0⟩, ⟨.raisedUser 1, 1, 0⟩] = some .missNoRun := by decide
+example : Alru.specClause (alruRefKey .default sgA) (alruBind sgA) 2 [⟨⟨[1], []⟩, false⟩]
+    [⟨.ok ⟨2, [1, 0]⟩, 2, 0⟩] = some .missRanTwice := by decide
+/-- the body's exception swallowed; the spelling `f(b=0, a=1)` not recognised as `f(1)` -/
+example : Alru.specClause (alruRefKey .default sgA) (alruBind sgA) 2 [⟨⟨[1], []⟩, true⟩]
+    [⟨.okNone, 1, 0⟩] = some .raiseLost := by decide
+example : Alru.specClause (alruRefKey .default sgA) (alruBind sgA) 2 [⟨⟨[1], []⟩, false⟩, ⟨⟨[], [(2, 0), (1, 1)]⟩, false⟩]
+    [⟨.ok ⟨1, [1, 0]⟩, 1, 0⟩, ⟨.ok ⟨2, [1, 0]⟩, 2, 0⟩] = some .hitRanBody := by decide
+/-- a call that cannot be bound runs the body / raises something else; observation list too short or too long -/
+example : Alru.specClause (alruRefKey .default sgA) (alruBind sgA) 1 [⟨⟨[], []⟩, false⟩] [⟨.ok ⟨1, []⟩, 1, 0⟩] =
+    some .malformedCall := by decide
+example : Alru.specClause (alruRefKey .default sgA) (alruBind sgA) 1 [⟨⟨[], []⟩, false⟩] [⟨.raisedOther, 0, 0⟩] =
+    some .malformedCall := by decide
+example : Alru.specClause (alruRefKey .default sgA) (alruBind sgA) 2 [⟨⟨[1], []⟩, true⟩] [] = some .shape := by decide
+example : Alru.specClause (alruRefKey .default sgA) (alruBind sgA) 2 [] [⟨.unit, 0, 0⟩] = some .shape := by decide
+/-- per instance: a value shared across instances; an instance not dropped; a cache that survives its instance -/
+example : PerInst.specClause (perInstRefKey sgM) (perInstBind sgM) [.call 0 ⟨[1], []⟩ false false, .call 1 ⟨[1], []⟩ false false]
+    [⟨.ok ⟨1, [1, 0]⟩, 1, 1⟩, ⟨.ok ⟨1, [1, 0]⟩, 1, 2⟩] = some .staleValue := by decide
+example : PerInst.specClause (perInstRefKey sgM) (perInstBind sgM) [.call 0 ⟨[1], []⟩ false false, .drop 0]
+    [⟨.ok ⟨1, [1, 0]⟩, 1, 1⟩, ⟨.unit, 1, 1⟩] = some .instances := by decide
+example : PerInst.specClause (perInstRefKey sgM) (perInstBind sgM)
+    [.call 0 ⟨[1], []⟩ false false, .drop 0, .call 0 ⟨[1], []⟩ false false]
+    [⟨.ok ⟨1, [1, 0]⟩, 1, 1⟩, ⟨.unit, 1, 0⟩, ⟨.ok ⟨1, [1, 0]⟩, 1, 1⟩] = some .staleValue := by decide
+/-- lazy constant: cached beyond its ttl; recomputed twice after dirty(); dirty() ignored -/
+example : Lazy.specClause 5 1 [.call false 0, .tick 6, .call false 0]
+    [⟨.ok ⟨1, []⟩, 1, 1⟩, ⟨.unit, 1, 7⟩, ⟨.ok ⟨1, []⟩, 1, 7⟩] = some .staleValue := by decide
+example : Lazy.specClause 0 1 [.call false 0, .dirty, .call false 0, .call false 0]
+    [⟨.ok ⟨1, []⟩, 1, 1⟩, ⟨.unit, 1, 1⟩, ⟨.ok ⟨2, []⟩, 2, 1⟩, ⟨.ok ⟨3, []⟩, 3, 1⟩] = some .hitRanBody := by decide
+example : Lazy.specClause 0 1 [.call false 0, .dirty, .call false 0]
+    [⟨.ok ⟨1, []⟩, 1, 1⟩, ⟨.unit, 1, 1⟩, ⟨.ok ⟨1, []⟩, 1, 1⟩] = some .staleValue := by decide
+end rejected
+
+/-! ## one step of the model (NOT claimed as property theorems)
+
+These hold by unfolding `step` once: they say what the model does, in the vocabulary of the property, and are only as
+good as the correspondence between the model and tools.py.  The history-level statements with content are the
+refinement theorems (the observer checks hit / miss / failure-not-stored on every call of every history) and the two
+eviction theorems above. -/
+
+/-- a hit returns the stored value, does not run the body and makes the entry the most recently used -/
+theorem C13_alru_hit (mk : Call → Option Key) (bd : Call → Option (List Nat)) (st : Alru.St) (op : Alru.Op)
+    (k : Key) (v : Val) (hk : mk op.c = some k) (hl : st.cache.items.lookup k = some v) :
+    (Alru.step mk bd st op).2 = .ok v ∧ (Alru.step mk bd st op).1.runs = st.runs ∧
+      (Alru.step mk bd st op).1.cache.items = del k st.cache.items ++ [(k, v)] := by
+  rw [Alru.step_hit hk hl]; exact ⟨rfl, rfl, rfl⟩
+
+/-- a miss runs the body exactly once, returns its fresh result, stores it as the most recently used entry and, iff
+    the cache is full, evicts exactly the least recently used entry (the head of the recency list) -/
+theorem C13_alru_miss (mk : Call → Option Key) (bd : Call → Option (List Nat)) (st : Alru.St) (op : Alru.Op)
+    (k : Key) (b : List Nat) (hk : mk op.c = some k) (hl : st.cache.items.lookup k = none) (hb : bd op.c = some b)
+    (hr : op.raises = false) :
+    (Alru.step mk bd st op).2 = .ok ⟨st.runs + 1, b⟩ ∧ (Alru.step mk bd st op).1.runs = st.runs + 1 ∧
+      (Alru.step mk bd st op).1.cache.items =
+        (if st.cache.items.length = st.cache.cap then st.cache.items.drop 1 else st.cache.items) ++
+          [(k, ⟨st.runs + 1, b⟩)] := by
+  rw [Alru.step_store hk hl hb hr]
+  refine ⟨rfl, rfl, ?_⟩
+  simp only [LRU.setItem, hl, Option.isSome_none, Bool.false_eq_true, if_false]
+  by_cases hfull : st.cache.items.length = st.cache.cap
+  · simp [hfull]
+  · have hb' : (st.cache.items.length == st.cache.cap) = false := by simpa using hfull
+    simp [hb', hfull]
+
+/-- a body that raises is not cached: the exception reaches the caller and the cache is unchanged -/
+theorem C13_alru_raise_not_stored (mk : Call → Option Key) (bd : Call → Option (List Nat)) (st : Alru.St) (op : Alru.Op)
+    (k : Key) (b : List Nat) (hk : mk op.c = some k) (hl : st.cache.items.lookup k = none) (hb : bd op.c = some b)
+    (hr : op.raises = true) :
+    (Alru.step mk bd st op).2 = .raisedUser (st.runs + 1) ∧ (Alru.step mk bd st op).1.cache = st.cache := by
+  rw [Alru.step_raise hk hl hb hr]; exact ⟨rfl, rfl⟩
+
+/-- giving up an instance none of whose cached values refers to it removes exactly its entry (a later instance that
+    reuses the token starts from an empty cache); one that is referred to by a cached value leaves a zombie entry -/
+theorem C13_instance_drop (mk : Call → Option Key) (bd : Call → Option (List Nat)) (st : PerInst.St) (i : Nat) :
+    (PerInst.step mk bd st (.drop i)).1.insts.lookup i = none ∧
+      (PerInst.step mk bd st (.drop i)).1.insts.map (·.1) = (st.insts.map (·.1)).filter (· != i) ∧
+      (PerInst.step mk bd st (.drop i)).1.zombies = st.zombies + (if st.pinned.contains i then 1 else 0) := by
+  simp only [PerInst.step]
+  split <;> simp_all [PerInst.lookup_filter_ne, PerInst.map_fst_filter]
 
 end AsynqModel.Cache
